@@ -224,6 +224,8 @@ def correspond(ctx):
                 continue
             d.case(stream, g, parser, lexer, text, extra, 'bytes', None)
             if lexer in P.DYNAMIC:
+                # complete-text slices must behave like the plain text (repair F30); partial ones raise TypeError
+                d.case(stream, g, parser, lexer, text, extra, rng.choice(['str', 'bytes']), None, complete_slice=True)
                 if rng.random() < 0.3:
                     d.case(stream, g, parser, lexer, text, extra, 'str', (rng.choice(P.WINDOW_PARTS[1:]), ''))
                 continue
@@ -248,12 +250,10 @@ def correspond(ctx):
     for key, g, text, win in F9_CASES:
         for parser, lexer in (('lalr', 'basic'), ('lalr', 'contextual'), ('earley', 'basic')):
             d.case('exotic-F9', g, parser, lexer, text, (), 'str', win, key=key)
-    # F24 (listed finding): a complete-text TextSlice is let through by ParsingFrontend.parse for the dynamic lexers
-    # but xearley iterates over it: TypeError instead of the plain-str result
+    # regression witness of F30 (repaired): complete-text TextSlice under the dynamic lexers
     for lexer in P.DYNAMIC:
         for rep in ('str', 'bytes'):
-            d.case('exotic-F24', 'start: (A|B)+\nA: /a/\nB: /\\n/\n', 'earley', lexer, 'a\na', (), rep, None, complete_slice=True,
-                   key='F24:dynamic-complete-slice-not-iterable')
+            d.case('exotic-F30', 'start: (A|B)+\nA: /a/\nB: /\\n/\n', 'earley', lexer, 'a\na', (), rep, None, complete_slice=True)
     d.col.check()
 
 
